@@ -1,8 +1,11 @@
 #!/bin/sh
 # offline dependency check: hypothesis must be importable by /venv/bin/python (it is pre-installed
-# there; if not, install from the local wheelhouse into /verif/.deps, which vlib/env.py puts on sys.path)
+# there; if not, install from the local wheelhouse into /verif/.deps, which vlib/env.py puts on sys.path).
+# atheris (coverage-guided campaign of the C10 thorough tier) is installed into /verif/.deps best-effort.
 cd "$(dirname "$0")"
-/venv/bin/python -c "import hypothesis" 2>/dev/null && exit 0
 mkdir -p .deps
+PYTHONPATH=.deps /venv/bin/python -c "import atheris" 2>/dev/null || \
+  /venv/bin/pip install --quiet --no-index --find-links /opt/veriftools/wheels --target .deps atheris >/dev/null 2>&1 || true
+/venv/bin/python -c "import hypothesis" 2>/dev/null && exit 0
 /venv/bin/pip install --quiet --no-index --find-links /opt/veriftools/wheels --target .deps hypothesis
 PYTHONPATH=.deps /venv/bin/python -c "import hypothesis"
